@@ -757,7 +757,11 @@ var ruleSnapshot = &core.Rule{ID: "R06.6", Min: 6,
 				}
 			}
 			if len(walks) == 0 {
-				// delegates to another entry: fine as long as the total is one snapshot (checked above)
+				// delegates to another entry or to a wrapper: the total is one snapshot (checked above); a wrapper must
+				// be handed that snapshot
+				for _, ws := range getWalk(c).sitesIn(f) {
+					s.Check(m.isLimitSnapshot(ws.lim), core.FName(f)+": walk receives the snapshot", c.Pos(ws.call.Pos()), "limit argument is the atomic load (through "+ws.wrapper.Name()+")", "the limit handed to the walk is not the value of the single atomic load")
+				}
 				continue
 			}
 			s.Check(len(walks) == 1, core.FName(f)+": one walk per detection", c.Pos(f.Pos()), "1 walk call", fmt.Sprintf("%d walk calls", len(walks)))
